@@ -413,6 +413,11 @@ class VariantReach:
                 out = ("Ok", "Some") + a0[2:] if a0[1] == "Ok" else ("Err",)
         elif n & {"core::result::Result::map_err", "core::result::Result::map", "core::option::Option::map"} and a0:
             out = a0[:1]
+        elif a0 and any(x.rsplit("::", 1)[-1] in ("is_some", "is_none", "is_ok", "is_err") and ("Option" in x or "Result" in x) for x in n):
+            # a test of the tracked variant: its boolean result is tracked as a pseudo-variant and decides the switch on it
+            short = next(x.rsplit("::", 1)[-1] for x in n if x.rsplit("::", 1)[-1] in ("is_some", "is_none", "is_ok", "is_err"))
+            truth = {"is_some": a0[0] == "Some", "is_none": a0[0] == "None", "is_ok": a0[0] == "Ok", "is_err": a0[0] == "Err"}[short]
+            out = ("#true",) if truth else ("#false",)
         elif n & {"core::convert::Into::into", "core::convert::From::from"} and a0 and dst is not None \
                 and self.body.local_ty(dst["l"]).split("<")[0] in ("core::result::Result", "core::option::Option"):
             out = a0
@@ -453,6 +458,10 @@ class VariantReach:
         elif t["k"] == "switch":
             dl = t["discr"].get("copy") or t["discr"].get("move")
             d = None
+            if dl is not None and not dl["p"] and env.get(dl["l"]) in (("#true",), ("#false",)):
+                val = 1 if env[dl["l"]] == ("#true",) else 0
+                hit = [x for vv, x in t["targets"] if vv == val]
+                nxt = [hit[0] if hit else t["otherwise"]]
             if dl is not None and not dl["p"]:
                 for s in blk["s"]:
                     if s["k"] == "assign" and s["place"]["l"] == dl["l"] and s["rv"]["k"] == "discr":
